@@ -27,6 +27,8 @@ def build(I, ty, leaf, path=()):
                 return leaf("opt_edge", path)
         if t.get("path") == NODEID:
             return leaf("id", path)
+        if t.get("path") == EDGE:
+            return leaf("edge", path)          # a plain NodeEdge: the closing edge of a traversal (another way of remembering the root)
         if t.get("local"):
             adt = I.prog.adts[t["path"]]
             fs = []
@@ -68,6 +70,36 @@ def dec(view, v):
     return ("?", repr(v))
 
 
+def state_dict(view, rkey, v):
+    """role -> decoded leaf; a root remembered as its closing edge decodes to the node, the edge kind goes to `root_edge`."""
+    out = {}
+    for p, val in leaves(v):
+        k, d = rkey(p), dec(view, val)
+        if k == "root" and isinstance(d, tuple) and len(d) == 2 and d[0] in ("Start", "End"):
+            out["root_edge"] = d[0]
+            d = d[1]
+        out[k] = d
+    return out
+
+
+def closing_variant(I, newk):
+    """Which edge a traversal that stores its root as a NodeEdge uses (read from what its constructor builds)."""
+    cache = I.__dict__.setdefault("_closing_variant", {})
+    if newk not in cache:
+        st = State()
+        x = st.new_node(True, "arg:node")
+        vs = set()
+        for (s1, k1, v1, m1) in run_fn(I, st, newk, lambda s: [driver.arena_ref(False), s.id_of(x)]):
+            if k1 == "return":
+                for p, val in leaves(v1):
+                    if isinstance(val, VEnum) and val.adt == EDGE:
+                        vs.add(val.variant)
+        if len(vs) != 1:
+            raise Undecided("closing edge of %s is not a single constant edge kind: %s" % (newk, sorted(vs)))
+        cache[newk] = next(iter(vs))
+    return cache[newk]
+
+
 def iter_kinds(I):
     """(name, type dict, next key, next_back key or None, new key) for every local iterator type with an Iterator impl."""
     out = []
@@ -90,6 +122,8 @@ def role_map(I, name, ty, nextk):
     cursors = [p for p, k in kinds.items() if k == "opt_id"]
     for p, k in kinds.items():
         if k == "id":
+            roles[p] = "root"
+        elif k == "edge" and "id" not in kinds.values():
             roles[p] = "root"
         elif k == "opt_edge":
             roles[p] = "next"
@@ -140,7 +174,7 @@ def iters_entry(I):
                 view = spec.View(I, s1)
                 rec = {"entry": "iters", "table": name + "::new", "exit": k1, "msg": m1, "node": x}
                 if k1 == "return":
-                    rec["state"] = {rkey(p): dec(view, val) for p, val in leaves(v1)}
+                    rec["state"] = state_dict(view, rkey, v1)
                     rec["facts"] = {f: view.pre(x, f) for f in ("parent", "first_child", "last_child") if f in s1.nodes[x].h0}
                     rec["reach"] = [list(r) for r in s1.meta.get("reach", ())]
                     pp = s1.h0_link(x, "parent")
@@ -183,6 +217,9 @@ def iters_entry(I):
                     if kind == "id":
                         r = info.setdefault("root", st.new_node(True, "root"))
                         return st.id_of(r)
+                    if kind == "edge":
+                        r = info.setdefault("root", st.new_node(True, "root"))
+                        return VEnum(EDGE, closing_variant(I, newk), (("0", st.id_of(r)),))
                     if kind == "opt_edge":
                         variant, alias = case
                         if variant is None:
@@ -228,7 +265,7 @@ def iters_entry(I):
                     if k1 == "return":
                         rec["yield"] = dec(view, v1)
                         after = s1.meta["temps"][slot[1]]
-                        rec["state"] = {rkey(p): dec(view, x) for p, x in leaves(after)}
+                        rec["state"] = state_dict(view, rkey, after)
                         writes = [e for e in s1.events if e[0] in ("write", "write-arena", "push", "clear")]
                         rec["writes"] = len(writes)
                         c = info.get("c") or info.get("h") or info.get("t")
@@ -273,7 +310,8 @@ def iters_entry(I):
             vals = [none() if kind is None else some(VEnum(EDGE, kind, (("0", st.id_of(cs[i])),))) for i, kind in enumerate(script)]
             st.meta["stubs"] = {tnext: vals}
             try:
-                val = build(I, dty, lambda k, p: st.id_of(x) if k == "id" else none())
+                tnew = [k for k in I.fns if k.endswith("::new") and k.startswith(TRV + "Traverse<")]
+                val = build(I, dty, lambda k, p: st.id_of(x) if k == "id" else (VEnum(EDGE, closing_variant(I, tnew[0]), (("0", st.id_of(x)),)) if k == "edge" else none()))
                 slot = st.new_temp(val)
                 outs = run_fn(I, st, dn[0], lambda s: [VRef(slot, (), True)])
             except (Undecided, Panic) as ex:
